@@ -92,8 +92,10 @@ let mode_hd path =
           | Both (a, _) -> "xx:" ^ string_of_chars a.o_name
           | Only1 a -> "x-:" ^ string_of_chars a.o_name
           | Only2 a -> "-x:" ^ string_of_chars a.o_name) (cmatch f1.f_objs f2.f_objs)) in
-      Printf.printf "S %s ; M %s %s ; T %s ; W %s\n" (zs [spec_exit f1 f2]) (zs [hdiff_exit_m f1 f2]) (zs [hdiff_m f1 f2]) tbl
-        (zs [match_wanted f1.f_objs f2.f_objs])
+      let tags = String.concat " " (List.map2 (fun t o -> string_of_chars (fmt_dec t) ^ ":" ^ string_of_chars o.o_name)
+                                     (table_tags f1.f_objs) f1.f_objs) in
+      Printf.printf "S %s ; M %s %s ; T %s ; W %s ; G %s\n" (zs [spec_exit f1 f2]) (zs [hdiff_tab_exit_m f1 f2]) (zs [hdiff_tab_m f1 f2]) tbl
+        (zs [match_wanted f1.f_objs f2.f_objs]) tags
     | _ -> print_string "S badline ; M badline\n") (read_lines path)
 
 let opt_toks f l = String.concat " " (List.map (fun v -> match f v with Some t -> string_of_chars t | None -> "?") l)
@@ -135,6 +137,18 @@ let mode_pos path =
        | _ -> print_string "M badline\n")
     | _ -> print_string "M badline\n") (read_lines path)
 
+(* lines "nv vsize": record numbers dumpvd prints -> "M <count> <1 if they are 0..nv-1 in order> <first out-of-order position or -1>" *)
+let mode_vdwalk path =
+  List.iter (fun line -> match List.map z_of_string (toks line) with
+    | [nv; vsize] ->
+      (match dumpvd_m nv vsize with
+       | Some l ->
+         let rec chk i = function [] -> -1 | x :: r -> if int_of_z x = i then chk (i + 1) r else i in
+         let bad = chk 0 l in
+         Printf.printf "M %d %d %d\n" (List.length l) (if bad < 0 && List.length l = int_of_z nv then 1 else 0) bad
+       | None -> print_string "M nofinish\n")
+    | _ -> print_string "M badline\n") (read_lines path)
+
 let () =
   match Sys.argv with
   | [| _; "ad"; p |] -> mode_ad p
@@ -142,4 +156,5 @@ let () =
   | [| _; "dump"; p |] -> mode_dump p
   | [| _; "imp"; p |] -> mode_imp p
   | [| _; "pos"; p |] -> mode_pos p
+  | [| _; "vdwalk"; p |] -> mode_vdwalk p
   | _ -> prerr_endline "usage: tools_model ad|hd|dump|imp|pos <file>"; exit 2
